@@ -57,6 +57,7 @@ enum Fault {
     F_SPURIOUS_TRYLOCK,
     F_STALE_READ,
     F_THROW,
+    F_ALLOC_FAIL,  ///< harness-level: an allocator handed to the library fails (recorded decision)
     F_NKINDS
 };
 /// enable a fault kind for this run with a firing probability in permille
